@@ -141,7 +141,7 @@ InitState(lim, dv) ==
     rtname |-> "",
     mkid   |-> <<>>,          \* ids of the markers whose object is not complete yet (innermost last)
     marked |-> {},            \* set of <<id, datatype>>
-    fwd    |-> {},            \* set of <<id, mask>>   mask \in {"any","keyable"}
+    fwd    |-> {},            \* set of <<id, mask>>   mask \in {"any","nonnull","keyable"}
     refs   |-> 0,
     arr    |-> NoArr,
     lim    |-> lim,
@@ -202,9 +202,17 @@ NotifyKey(s, dt, k, kb, form) ==
 --------------------------------------------------------------------------
 (* Markers and references                                                  *)
 
-KeyableObj == {"bool","int","float","uid","time","string","rid"}
-InMask(dt, mask) == mask = "any" \/ dt \in KeyableObj
-MaskAnd(a, b) == IF a = "keyable" \/ b = "keyable" THEN "keyable" ELSE "any"
+(* A reference must name an object that may stand where the reference      *)
+(* stands: anything ("any"), anything but null (an edge's source and        *)
+(* destination, "nonnull"), or a keyable object (a map key, "keyable").     *)
+(* Floats are not keyable.  The masks are nested, so the intersection the   *)
+(* code computes for several forward references is the smallest one.        *)
+KeyableObj == {"bool","int","uid","time","string","rid"}
+InMask(dt, mask) == CASE mask = "any" -> TRUE
+                      [] mask = "nonnull" -> dt # "null"
+                      [] mask = "keyable" -> dt \in KeyableObj
+MaskAnd(a, b) == IF "keyable" \in {a, b} THEN "keyable"
+                 ELSE IF "nonnull" \in {a, b} THEN "nonnull" ELSE "any"
 
 IsMarked(s, id) == \E p \in s.marked : p[1] = id
 MarkedType(s, id) == (CHOOSE p \in s.marked : p[1] = id)[2]
@@ -274,9 +282,11 @@ NoteRref(s, at) == IF at = "rref" /\ Dev(s, "rref-utf8-unchecked")
 
 ValidateFullArrayAnyType(s0, at, count, bytes) ==
   LET s == NoteRref(s0, at) IN
-  IF at \in StrTypes(s)
+  (* the declared element count must match the data, whatever the type *)
+  IF Len(bytes) # ByteCount(at, count) THEN Fail(s, "array")
+  ELSE IF at \in StrTypes(s)
   THEN IF ~LenOK(s, Len(bytes)) THEN Fail(s, "limit") ELSE IF U8Valid(bytes) THEN s ELSE Fail(s, "array")
-  ELSE IF Len(bytes) # ByteCount(at, count) THEN Fail(s, "array") ELSE IF LenOK(s, Len(bytes)) THEN s ELSE Fail(s, "limit")
+  ELSE IF LenOK(s, Len(bytes)) THEN s ELSE Fail(s, "limit")
 
 ValidateFullArrayStringlike(s0, at, bytes) ==
   LET s == NoteRref(s0, at) IN
@@ -414,6 +424,7 @@ DoPlain(r, m, s, e) ==
     [] m = "node"   -> BeginContainer(s, "Node", "list", NoCount)
     [] m = "edge"   -> BeginContainer(s, "EdgeSource", "edge", 3)
     [] m = "rtype"  -> IF Len(s.stack) # 1 THEN Fail(s, "structure")
+                       ELSE IF \E p \in s.rtypes : p[1] = e.id THEN Fail(s, "structure")   \* defined twice: refused at once
                        ELSE Then(BeginContainer(s, "RecordType", "recordtype", NoCount),
                                  LAMBDA t : [t EXCEPT !.rtname = e.id])
     [] m = "record" -> IF \E p \in s.rtypes : p[1] = e.id
@@ -424,7 +435,9 @@ DoPlain(r, m, s, e) ==
     [] m = "marker" -> LET s1 == PushMarker(s, e.id) IN
                        StackRule(s1, IF r = "MapKey" THEN "MarkedKeyable" ELSE "MarkedAny",
                                  "", NoCount)
-    [] m = "ref"    -> Then(LocalReferenceObject(s, e.id, IF r = "MapKey" THEN "keyable" ELSE "any"),
+    [] m = "ref"    -> Then(LocalReferenceObject(s, e.id, IF r = "MapKey" THEN "keyable"
+                                                          ELSE IF r \in {"EdgeSource", "EdgeDestination"} THEN "nonnull"
+                                                          ELSE "any"),
                             LAMBDA t : ObjDone(r, t))
     [] m = "array"  -> IF ~ArrayTypeOKFor(r, e.at) THEN Fail(s, "structure")
                        ELSE LET s1 == ValidateFullArrayAnyType(s, e.at, e.count, e.bytes)
@@ -514,6 +527,7 @@ Step(s, e) ==
                                 (* fields are out of range (ValidateTime) is refused before any rule *)
                                 IF e.sp = "nil" THEN real("null")
                                 ELSE IF m = "OnTime" /\ ~e.pok THEN Fail(s, "array")
+                                ELSE IF m = "OnUID" /\ ~e.pok THEN Fail(s, "array")   \* not 16 bytes
                                 ELSE real("key")
     [] m \in FloatMethods    -> (* a big binary float whose exponent has more digits than            *)
                                 (* MaxFloatExponentDigitCount is refused before any rule (pok = FALSE) *)
